@@ -75,6 +75,7 @@ type c10Probe struct {
 	faults []string
 	ready  chan struct{}
 	done   []bool
+	inner  chan struct{} // closed when the innermost handler of a cancel case is through with its checks
 }
 
 func (p *c10Probe) fault(format string, a ...interface{}) {
@@ -95,7 +96,7 @@ func propC10(c c10Case) *Outcome {
 		anyMD = anyMD || (!l.NoMD && len(l.OutMD) > 0)
 	}
 	o.NonTrivial = nvals >= 1 && (len(c.Levels) >= 2 || anyMD)
-	p := &c10Probe{ready: make(chan struct{}), done: make([]bool, len(c.Levels))}
+	p := &c10Probe{ready: make(chan struct{}), inner: make(chan struct{}), done: make([]bool, len(c.Levels))}
 	ch := &inprocgrpc.Channel{}
 	if c.Interceptor {
 		ch.WithServerUnaryInterceptor(func(ctx context.Context, req interface{}, info *grpc.UnaryServerInfo, handler grpc.UnaryHandler) (interface{}, error) {
@@ -210,6 +211,7 @@ func propC10(c c10Case) *Outcome {
 			return makeCall(level+1, ctx)
 		}
 		if c.Cancel {
+			defer close(p.inner)
 			close(p.ready)
 			select {
 			case <-ctx.Done():
@@ -339,6 +341,18 @@ func propC10(c c10Case) *Outcome {
 	})
 	if stall != "" {
 		return o.failf("stall: %s", stall)
+	}
+	if c.Cancel {
+		// the calls have returned (cancelled); the innermost handler is still at work for a moment
+		select {
+		case <-p.ready:
+			select {
+			case <-p.inner:
+			case <-time.After(stallBound):
+				return o.failf("innermost handler still running %v after the cancelled calls returned", stallBound)
+			}
+		default: // the chain never got that far
+		}
 	}
 	p.mu.Lock()
 	defer p.mu.Unlock()
